@@ -44,7 +44,7 @@ def main():
         mutated = sh(f"/venv/bin/python -W ignore {demo}", env=env, cwd=str(wt))
         meta["demo_mutated_exit"] = mutated.returncode
         meta["demo_mutated_tail"] = (mutated.stdout + mutated.stderr)[-300:]
-        tests = sh("/venv/bin/python -m pytest -q -p no:cacheprovider --timeout=900 -x -q 2>&1 | grep -E 'passed|failed' | tail -1",
+        tests = sh("/venv/bin/python -m pytest -q -p no:cacheprovider --timeout=900 -x 2>&1 | grep -E 'passed|failed' | tail -1",
                    env=env, cwd=str(wt))
         meta["repo_tests"] = tests.stdout.strip()
         meta["checks"] = {}
